@@ -57,16 +57,19 @@ def model(cases):
     for c in cases:
         lines.append("past | " + F.to_proto(c["f"]))
         lines.append("frag | frag | " + F.to_proto(c["f"]))
+        lines.append("pastgen | " + F.to_proto(c["f"]))
     outs = common.driver_run(lines)
     lines2, idx = [], []
     for i, c in enumerate(cases):
-        p = outs[2 * i]
+        p = outs[3 * i]
+        c["pastgen"] = outs[3 * i + 2].strip()
+        c["past_line"] = p.strip()
         if not p.startswith("ok "):
             raise common.HarnessError("model has no horizon for a bounded formula: %s" % p)
         head, proto = p[3:].split("|", 1)
         c["hor"] = int(head.strip())
         c["past"] = F.from_proto(proto.strip())
-        c["frag"] = outs[2 * i + 1].strip() == "1"
+        c["frag"] = outs[3 * i + 1].strip() == "1"
         lines2.append(disc.proto_case("ond", c["past"], c["data"], c["n"]))
         for k in range(c["hor"], c["n"]):
             pre = {v: c["data"][v][:k + 1] for v in c["data"]}
@@ -99,6 +102,10 @@ def check_case(ctx, case):
         if not any(m[0] == "undef" for m in case["m_rho"]) or case["m_on"][0] != "ok":
             diff = Violation("update() stream differs from the mirror of the pastified monitor: %s" % text, rep,
                              failing_input=False, stream="past-d/mirror")
+    if diff is None and case.get("pastgen") is not None and case["pastgen"] != case["past_line"]:
+        diff = Violation("the horizon / pastifier methods translated from the source (run under the Lean semantics) give %r, the "
+                         "implementation prints the mirror's %r: %s" % (case["pastgen"], case["past_line"], text), rep,
+                         failing_input=False, stream="past-d/translated")
     if not case["frag"]:
         ctx.skipped_known += 1          # oracle not applied (F15); correspondence with the mirror still is
         return None, diff
